@@ -168,6 +168,36 @@ theorem stmt_outcome_order_independent_number {t₁ t₂ : Table} (hs : Table.Su
   rw [this] at hsh
   cases hsh
 
+/-- C08 (statement level, STATE form of Props/C08Asm.lean with `plain` replaced by the exact condition)  If every operand
+satisfies `LeftStableArg`, the re-run IS the fresh run: same outcome, same instruction, same argument list. -/
+theorem stmt_bytes_order_independent_stable {t₁ t₂ : Table} (hs : Table.Sub t₁ t₂) (hn : Table.NoDef t₁) (addr : Nat)
+    (name : Bytes) (args : List Arg) (hp : ∀ a ∈ args, LeftStableArg t₁ t₂ a) (c : Bytes) (fs1 : Front.St)
+    (h1 : Front.build addr name args (frontEval t₁) true = .deferred c fs1) (loc : Bool) :
+    ∃ t, Front.mnemonic name = some t ∧
+      Front.assemble fs1 (frontEval t₂) loc = Front.assemble ⟨addr, t, 0, args⟩ (frontEval t₂) loc := by
+  unfold Front.build at h1
+  cases hm : Front.mnemonic name with
+  | none => rw [hm] at h1; cases h1
+  | some t =>
+    rw [hm] at h1
+    simp only at h1
+    cases ha : Front.assemble ⟨addr, t, 0, args⟩ (frontEval t₁) true with
+    | mk st r =>
+      rw [ha] at h1
+      cases r with
+      | completed => cases h1
+      | error d => cases h1
+      | panic => cases h1
+      | deferred c' =>
+        simp only [Front.BuildOut.deferred.injEq] at h1
+        obtain ⟨rfl, rfl⟩ := h1
+        exact ⟨t, rfl, Front.assemble_retry _ _ addr t args (fun a ha' => grows_stable hs hn (hp a ha')) st c' ha loc⟩
+
+/-- C08 (data, tree form under the exact condition) -/
+theorem du_value_order_independent_stable {t₁ t₂ : Table} (hs : Table.Sub t₁ t₂) (hn : Table.NoDef t₁) (a : Arg)
+    (hp : LeftStableArg t₁ t₂ a) (n : Bytes) (a₁ : Arg) (h : evalIn t₁ a = .ok (.noSuch n a₁)) :
+    evalIn t₂ a₁ = evalIn t₂ a := data_retry_stable hs hn hp h
+
 /-- the emitted bytes: same instruction, same address, same encoder — same bytes -/
 theorem stmt_bytes_of_outcome (enc : Encoder) (fs2 : Front.St) (i : Instr) (h : fs2.instr = i) : enc fs2.instr = enc i := by
   rw [h]
